@@ -370,3 +370,39 @@ Definition pydata_of (s : screen) : pydata :=
   end.
 Definition scr_okb (s : screen) : bool :=
   match s with ScrN a _ => negb (Nat.eqb a 1) && negb (Nat.eqb a 2) | _ => true end.
+
+(* ---- vocabulary of the translated helpers of models/main.py (predict_*_all, predict_*_avg) ---- *)
+(* thetas.get_theta(i) (ThetaHolder, linked to its source by C10): ValueError outside 0 .. len(thetas) - 1 *)
+Definition holder_get (h : holder) (i : Z) : result theta :=
+  if (i >? Z.of_nat (length (h_thetas h)) - 1)%Z || (i <? 0)%Z then Err ERR_HOLDER else get_theta h (Z.to_nat i).
+(* np.zeros((n,), dtype=float), np.zeros((n, m), dtype=float) *)
+Definition np_zeros1 (n : Z) : list Qc := repeat 0 (Z.to_nat n).
+Definition np_zeros2 (n m : Z) : list (list Qc) := repeat (repeat 0 (Z.to_nat m)) (Z.to_nat n).
+(* a[i, :] of a matrix (negative i counts from the end, IndexError outside) *)
+Definition np_row (a : list (list Qc)) (i : Z) : result (list Qc) :=
+  match py_index (length a) i with Some k => Ok (nth k a []) | None => Err ERR_INDEX end.
+(* a[i, :] = v: row i is overwritten by v when v has the row's length, by v's single entry repeated when v has length 1
+   (numpy broadcasting); any other length is a ValueError, a row index outside [-n, n) an IndexError *)
+Definition np_set_row (a : list (list Qc)) (i : Z) (v : list Qc) : result (list (list Qc)) :=
+  match py_index (length a) i with
+  | None => Err ERR_INDEX
+  | Some k =>
+      let w := length (nth k a []) in
+      if Nat.eqb (length v) w then Ok (firstn k a ++ v :: skipn (S k) a)
+      else if Nat.eqb (length v) 1 then Ok (firstn k a ++ repeat (nth 0 v 0) w :: skipn (S k) a)
+      else Err ERR_SHAPE
+  end.
+(* np.isnan(x).any() / np.any(np.isnan(x)): a vector of rationals holds no NaN (floating point is abstracted) *)
+Definition vec_has_nan (x : list Qc) : bool := false.
+(* x.size of a 1-d array *)
+Definition vec_size (x : list Qc) : Z := Z.of_nat (length x).
+(* np.stack(l, dtype=float) of a list of 1-d arrays: ValueError for no arrays and for arrays of unequal length *)
+Definition np_stack (l : list (list Qc)) : result (list (list Qc)) :=
+  match l with
+  | [] => Err ERR_STACK
+  | r :: rest => if forallb (fun x => Nat.eqb (length x) (length r)) rest then Ok l else Err ERR_SHAPE
+  end.
+(* x / n, a float array by a Python int: entrywise; by 0 the entries are nan / inf, which have no rational value:
+   the harness reads a non-finite entry as the error ERR_NAN (an empty array stays empty) *)
+Definition np_div_int (x : list Qc) (n : Z) : result (list Qc) :=
+  if (n =? 0)%Z then match x with [] => Ok [] | _ => Err ERR_NAN end else Ok (map (fun y => y / qofZ n) x).
